@@ -752,11 +752,18 @@ func shrink(h *History, class string) *History {
 	return &cur
 }
 
+// classes already minimized in this run (shrinking re-runs the history many times)
+var shrunk = map[string]int{}
+
 func doHistory(c *hx.Ctx, h *History, kind string) {
 	c.Eval()
 	h, ops, fails, pm := runHistory(h, func(k string) { c.Count(k) })
 	if pm != "" {
-		m := shrink(h, "panic")
+		m := h
+		if shrunk["panic"] < 3 {
+			shrunk["panic"]++
+			m = shrink(h, "panic")
+		}
 		c.Fail("panic", "storage operations must not panic", m, pm, "no panic")
 		return
 	}
